@@ -1254,6 +1254,17 @@ fn validate_partition_sequence(
     }
 }
 
+/// Verification hooks (compiled only with `--cfg sierradb_verif`).
+#[cfg(sierradb_verif)]
+pub mod verif {
+    use sierradb_protocol::ExpectedVersion;
+
+    /// Exposes the private `validate_partition_sequence` decision.
+    pub fn validate_partition_sequence(expected: ExpectedVersion, next_partition_sequence: u64) -> bool {
+        super::validate_partition_sequence(0, expected, next_partition_sequence).is_ok()
+    }
+}
+
 #[cfg(test)]
 mod tests {
     use std::collections::HashMap;
